@@ -242,16 +242,26 @@ def case_nanpct(ctx, inp):
 
 
 def case_joint(ctx, inp):
-    """percentiles of the same array for different (q, method) computed in one graph keep their own results"""
+    """percentiles computed in ONE graph keep their own results: different (q, method) of the same array, the same
+    (q, method) of a second array with the same length/chunks but other values, and of the same values chunked otherwise"""
     da = _da()
     a = np.array([float(v) for v in inp["data"]])
     x = da.from_array(a, chunks=(tuple(inp["chunks"]),))
-    arrs = [da.percentile(x, [float(Fraction(q)) for q in it["q"]], method=it["method"]) for it in inp["items"]]
+    srcs = [("x", x)]
+    if len(a):
+        srcs.append(("other values", da.from_array(a[::-1] * 2.0 + 1.0, chunks=(tuple(inp["chunks"]),))))
+        srcs.append(("other chunks", da.from_array(a, chunks=(tuple(U.compositions(len(a))[(len(a) * 7) % (1 << (len(a) - 1))]),))))
+    arrs, labels = [], []
+    for nm, src in srcs:
+        for it in inp["items"]:
+            arrs.append(da.percentile(src, [float(Fraction(q)) for q in it["q"]], method=it["method"]))
+            labels.append((nm, it))
     bad = U.joint_vs_solo(arrs)
     for i in bad:
         ctx.fail("a percentile computed together with others differs from the same percentile computed alone",
-                 observed={"item": inp["items"][i], "name": arrs[i].name})
-    ctx.branch(f"joint×{len(arrs)}")
+                 observed={"item": labels[i], "name": arrs[i].name,
+                           "same_name_as": [labels[j] for j, y in enumerate(arrs) if j != i and y.name == arrs[i].name]})
+    ctx.branch(f"joint×{len(inp['items'])}")
 
 
 CASES = {"joint": case_joint, "merge": case_merge, "pct": case_pct, "nanpct": case_nanpct}
